@@ -85,7 +85,7 @@ def matrixInitRaises : List String := ["ValueError", "TypeError", "ValueError", 
 /-- dtype conversion of the score matrix -/
 def matrixAstype : List String := ["self._matrix = score_matrix.astype(np.int32)"]
 /-- _fill_with_matrix_dict, statement by statement -/
-def matrixFillDict : List String := ["self._matrix = np.zeros((len(self._alph1), len(self._alph2)), dtype=np.int32)", "for i in range(len(self._alph1)):
+def matrixFillDict : List String := ["'\\n        Set the score matrix from a dictionary mapping symbol pairs to scores.\\n        '", "self._matrix = np.zeros((len(self._alph1), len(self._alph2)), dtype=np.int32)", "for i in range(len(self._alph1)):
     for j in range(len(self._alph2)):
         sym1 = self._alph1.decode(i)
         sym2 = self._alph2.decode(j)
